@@ -512,7 +512,9 @@ fn mean_stream_check<M: Machine>(slot: u16, s: &Slot<M>, k: usize, o_h: &Obs, o_
         _ => 0.0,
     };
     let tol = t.dm + slack;
-    let d = (th - tb).abs();
+    // history and batch that are both NaN (or bit-identical infinities) are "the same answer";
+    // C09 compares the two paths, it does not judge the answer itself (that is C11's business)
+    let d = if (th.is_nan() && tb.is_nan()) || mh.to_bits() == mb.to_bits() { 0.0 } else { (th - tb).abs() };
     stats.inc("c09_mean_checks");
     stats.worst("c09_mean_diff_over_tol", if d == 0.0 { 0.0 } else { d / tol });
     if !(d <= tol) {
@@ -535,7 +537,7 @@ fn mean_stream_check<M: Machine>(slot: u16, s: &Slot<M>, k: usize, o_h: &Obs, o_
     }
     // --- variance and standard deviation (Arithmetic / Unpaired sides)
     if let (Some(vh), Some(vb)) = (getf(o_h, What::Var(kk)), getf(o_b, What::Var(kk))) {
-        let d = (vh - vb).abs();
+        let d = if (vh.is_nan() && vb.is_nan()) || vh.to_bits() == vb.to_bits() { 0.0 } else { (vh - vb).abs() };
         stats.inc("c09_var_checks");
         stats.worst("c09_var_diff_over_tol", d / t.dv);
         // also record how far either is from the exact variance (diagnostic only)
@@ -549,7 +551,7 @@ fn mean_stream_check<M: Machine>(slot: u16, s: &Slot<M>, k: usize, o_h: &Obs, o_
             ));
         }
         if let (Some(sh), Some(sb)) = (getf(o_h, What::Sd(kk)), getf(o_b, What::Sd(kk))) {
-            let d = (sh - sb).abs();
+            let d = if (sh.is_nan() && sb.is_nan()) || sh.to_bits() == sb.to_bits() { 0.0 } else { (sh - sb).abs() };
             stats.worst("c09_sd_diff_over_tol", d / t.dsd);
             if !(d <= t.dsd) {
                 return Some(Violation::new(
@@ -576,7 +578,7 @@ fn mean_stream_check<M: Machine>(slot: u16, s: &Slot<M>, k: usize, o_h: &Obs, o_
             _ => 0.0,
         };
         let tol_e = t.dsd / (t.n - 1.0).sqrt() + semt * (16.0 * u + rel_mean);
-        let d = (xh - xb).abs();
+        let d = if (eh.is_nan() && eb.is_nan()) || eh.to_bits() == eb.to_bits() { 0.0 } else { (xh - xb).abs() };
         stats.inc("c09_sem_checks");
         stats.worst("c09_sem_diff_over_tol", d / tol_e);
         if !(d <= tol_e) {
